@@ -121,10 +121,10 @@ func c20Canon(src string) string {
 		switch n.Type {
 		case html.TextNode:
 			t := n.Data
-			if !pre {
-				t = strings.Join(strings.Fields(t), " ")
+			if !pre { // HTML white space only: a no-break space or an em space is text
+				t = strings.Join(strings.FieldsFunc(t, func(c rune) bool { return c == ' ' || c == '\t' || c == '\n' || c == '\f' || c == '\r' }), " ")
 			}
-			if strings.TrimSpace(t) != "" || (pre && t != "") {
+			if strings.Trim(t, " \t\n\f\r") != "" || (pre && t != "") {
 				sb.WriteString("[" + t + "]")
 			}
 		case html.ElementNode:
@@ -132,7 +132,7 @@ func c20Canon(src string) string {
 			// unclosed raw <b>, <u>, ... leaves behind at whitespace; it carries no structure or text
 			blank := true
 			for c := n.FirstChild; c != nil; c = c.NextSibling {
-				if c.Type != html.TextNode || strings.TrimSpace(c.Data) != "" {
+				if c.Type != html.TextNode || strings.Trim(c.Data, " \t\n\f\r") != "" {
 					blank = false
 				}
 			}
@@ -184,6 +184,7 @@ func c20Canon(src string) string {
 // ---------- Markdown grammar ----------
 var c20Words = []string{"lorem", "ipsum", "Dolor", "x", "42", "a < b", "AT&T", "&amp;", "&copy;", "&#35;", `\&amp;`, `\&ouml;`, `\&#42;`, "&#38;lt;", "&#x26;amp;", `\&lbrace;\&lbrace; x \&rbrace;\&rbrace;`, "&amp;#42;", `\*not em\*`, `\<`, `\&`, `"quoted"`, "it's", "{{ x }}", "{{ secret }}", "{ y }", "a_b_c", "2*3", "`", "1 > 0", "c:\\dir", "<!-- c -->", "$", "#tag", "[brackets]", "(parens)", "~",
 	// text that only an extension beyond CommonMark/GFM would read as syntax: it must stay text
+	"&nbsp;", "&nbsp;&nbsp;", "&emsp;", "&#160;", "\u00a0", "&#x3000;", "\u2003x",
 	"{#anchor}", "{.wide}", "{key=val}", "[^1]", ":smile:", "==mark==", "^sup^", "H~2~O", "--", "---x", "...", "(c)", "*[HTML]: x", "$x^2$", "++ins++", "@user", "[[wiki]]"}
 
 func c20Word(r *Rng) string {
